@@ -1,5 +1,5 @@
 (** * C15 — same impls via either entry point, merged or split lists, any co-derived set *)
-From DX Require Import Syntax Tables GenBound GenAttrs IR GenType GenCmp GenImpl GenTop SpecAttrs LemTop LemAttrs LemEntry.
+From DX Require Import Syntax Tables GenBound GenAttrs IR GenType GenCmp GenImpl GenTop SpecAttrs LemTop LemAttrs LemEntry LemLists.
 
 (** The attribute macro `#[derive_ex(a)] item` and the derive macro on the same item carrying
     `#[derive_ex(a)]` as its first attribute generate the same impls (and the same fatal error,
@@ -47,8 +47,16 @@ Theorem C15_order :
     snd (build_by_item_struct_core arg s) = Ok (map (struct_outcome s h fs) es).
 Proof. exact struct_core_entries. Qed.
 
+(** stacked `#[derive_ex(..)]` lists: the entries are those of each list on its own, in order - what a list shares
+    (`bound(..)`, `dump`) never reaches an entry of another list *)
+Theorem C15_lists_are_independent :
+  forall l1 l2, from_args_list (l1 ++ l2) =
+                (do es1 <- from_args_list l1; do es2 <- from_args_list l2; Ok (es1 ++ es2)).
+Proof. exact from_args_list_app. Qed.
+
 Print Assumptions C15_entry_points.
 Print Assumptions C15_split.
 Print Assumptions C15_coderived.
 Print Assumptions C15_agree_of_owned.
 Print Assumptions C15_order.
+Print Assumptions C15_lists_are_independent.
